@@ -43,7 +43,9 @@
 (*   blocks"          expected bytes of such files are atoms of the mount's *)
 (*                    blocks; data in newly written blocks resolves to     *)
 (*                    atoms marked new (id + 10000)                        *)
-(*  "Secret mounts never appear in the output"    Expected omits them      *)
+(*  "Secret mounts never appear in the output"    Expected omits them; a   *)
+(*                    LINK into a secret mount may be omitted or make the  *)
+(*                    copy fail (Expected.sec), nothing else               *)
 (*  "links that lead outside every mount or form cycles make the copy fail *)
 (*   instead of being silently dropped or followed forever"                *)
 (*                        CopyOK: Expected.err /\ Expected.hard => error;  *)
@@ -51,7 +53,9 @@
 (* DRIFT-ONLY (a trace failing only this is reported as DRIFT):            *)
 (*   CopyDriftOK  a link whose target names nothing at all (dangling)      *)
 (*                makes the copy fail as well - the copier does that       *)
-(*                (lstat), the statement does not speak of it              *)
+(*                (lstat), the statement does not speak of it; a link into *)
+(*                a secret mount is omitted silently (the copier's         *)
+(*                documented choice) rather than failing the copy          *)
 (* Not judged (statement silent / generator avoids): a link whose target   *)
 (* path passes THROUGH another link, a link to a path that does not exist  *)
 (* inside a collection mount, whether a directory whose only entries were  *)
@@ -189,12 +193,16 @@ MountHas(src) == LET s == CollPath(src) IN src = <<>> \/ s \in Paths(MountManife
 (* names (a link leaving every mount, a cycle); a "soft" error is a link   *)
 (* (or path) naming nothing at all, about which the statement says nothing *)
 (* - the copier fails there too (lstat), but that is not demanded.         *)
-OK(ents) == [err |-> FALSE, hard |-> FALSE, ents |-> ents]
-Err     == [err |-> TRUE, hard |-> TRUE, ents |-> {}]
-ErrSoft == [err |-> TRUE, hard |-> FALSE, ents |-> {}]
+(* sec: a LINK into a secret mount was met; the statement only says that   *)
+(* secrets never appear in the output, so such a link may be omitted (what *)
+(* the copier does) or make the copy fail.                                 *)
+OK(ents) == [err |-> FALSE, hard |-> FALSE, sec |-> FALSE, ents |-> ents]
+Err     == [err |-> TRUE, hard |-> TRUE, sec |-> FALSE, ents |-> {}]
+ErrSoft == [err |-> TRUE, hard |-> FALSE, sec |-> FALSE, ents |-> {}]
+SecretLink == [err |-> FALSE, hard |-> FALSE, sec |-> TRUE, ents |-> {}]
 Merge(rs) == IF \E r \in rs : r.err
-             THEN [err |-> TRUE, hard |-> \E r \in rs : r.err /\ r.hard, ents |-> {}]
-             ELSE OK(UNION {r.ents : r \in rs})
+             THEN [err |-> TRUE, hard |-> \E r \in rs : r.err /\ r.hard, sec |-> \E r \in rs : r.sec, ents |-> {}]
+             ELSE [err |-> FALSE, hard |-> FALSE, sec |-> \E r \in rs : r.sec, ents |-> UNION {r.ents : r \in rs}]
 
 (***************************************************************************)
 (* CONTRACT: Expected                                                      *)
@@ -215,7 +223,7 @@ Den(dest, p, seen) ==
          [] n.k = "link" ->
               IF p \in seen THEN Err                                       \* met again on the way down: a cycle
               ELSE LET loc == Where(TargetPath(<<OUT>> \o p, LinkTarget(n)))
-                   IN CASE loc.w = "secret" -> OK({})
+                   IN CASE loc.w = "secret" -> SecretLink
                         [] loc.w = "none"   -> Err
                         [] loc.w = "mnt"    -> IF MountHas(loc.p) THEN OK(MountEntries(dest, loc.p)) ELSE ErrSoft
                         [] loc.w = "out"    -> Den(dest, loc.p, seen \cup {p})
@@ -233,7 +241,7 @@ WalkMountsBelow(dest, src) ==                                  \* src: container
     ELSE OK({})
 WalkMount(dest, src, maxSymlinks, below) ==
     LET loc == Where(src)
-    IN CASE loc.w = "secret" -> OK({})                                     \* "Silently omit secrets"
+    IN CASE loc.w = "secret" -> SecretLink                                 \* "Silently omit secrets, and symlinks to secrets"
          [] loc.w = "none"   -> Err                                        \* "not in any mount"
          [] loc.w = "out"    -> WalkHostFS(dest, src, maxSymlinks, below)
          [] loc.w = "mnt"    ->                                            \* mft.Extract(srcRelPath, dest)
@@ -320,7 +328,9 @@ CopyOK(kind, out, nb) ==
     LET ex == Expected
         files == {e \in ex.ents : e.kind \in {"hfile", "mfile"}}
         real == {q \in Paths(out) : ~IsKeep(q)}
-    IN IF ex.err THEN (ex.hard => kind = "error")    \* a soft error only: nothing demanded (see CopyDriftOK)
+    IN IF ex.err /\ ex.hard THEN kind = "error"
+       ELSE IF ex.err THEN kind \in {"ok", "error"}       \* a soft error only: fail or not, but nothing else (no panic)
+       ELSE IF kind = "error" THEN ex.sec                \* failing is allowed only because of a link into a secret mount
        ELSE /\ kind = "ok"
             /\ real = {e.dst : e \in files}                                         \* FilesOK: same paths
             /\ \A e \in files : Resolved(out, nb, e.dst) = WantBytes(e)             \*          same bytes, by reference
@@ -332,7 +342,8 @@ CopyOK(kind, out, nb) ==
 
 CandSeq == << <<A>>, <<B>>, <<A, X>>, <<A, Y>>, <<B, X>> >>            \* parents before children
 \* DRIFT-ONLY (no sentence of the statement): a link or path naming nothing makes the copy fail, too
-CopyDriftOK(kind) == Expected.err => kind = "error"
+\*             and a link into a secret mount is omitted silently (copier.go: "Silently omit secrets, and symlinks to secrets")
+CopyDriftOK(kind) == IF Expected.err THEN kind = "error" ELSE kind = "ok"
 
 Emit == sc.done => Serialize(<<[nodes |-> [i \in DOMAIN CandSeq |->
                                    [path |-> CandSeq[i], k |-> sc.tree[CandSeq[i]].k, c |-> sc.tree[CandSeq[i]].c,
